@@ -36,7 +36,7 @@ func ValidateAggregateAndProof(ctx context.Context, signedAgg *phase0.SignedAggr
 	// i.e. aggregate.data.slot + ATTESTATION_PROPAGATION_SLOT_RANGE >= current_slot >= aggregate.data.slot
 	// overflow check
 	att := &signedAgg.Message.Aggregate
-	if err := CheckSlotSpan(aggVal.SlotAfter, att.Data.Slot, ATTESTATION_PROPAGATION_SLOT_RANGE); err != nil {
+	if err := CheckAttestationSlot(spec, aggVal.SlotAfter, att.Data.Slot); err != nil {
 		return nil, GossipValidatorResult{IGNORE, fmt.Errorf("aggregate attestation not within slot range: %v", err)}
 	}
 
